@@ -352,6 +352,31 @@ def join_more(ctx, rule="JOIN-SHAPE"):
         ok = len(res) == 1 and outer is not None and outer in dom[res[0][0]]
         ctx.check(ok, rule, "%s: the result is produced only after the row loops" % arm, "", "Join::%s can return a result without running its row loops (%d result constructions): e.g. an early "
                   "return for an empty side drops the unmatched left rows of a left join" % (arm, len(res)), f.loc(), fn=f.name, key="%s|%s|no-early-return" % (rule, arm))
+    # the row loops run to exhaustion: a join pairs EVERY left row with EVERY right row, so the only way out of a row loop is its iterator returning None
+    succs = f.succs()
+    nl = 0
+    for h, body in sorted(loops.items()):
+        ht = f.blocks[h]["term"]
+        if not (ht["t"] == "call" and re.search(r"slice::Iter<'a, T> as std::iter::Iterator>::next$|Iterator>?::next$", cname(prog, ht)) and "slice::Iter" in (cname(prog, ht) + (ht.get("written") or ""))):
+            continue
+        nl += 1
+        bad = []
+        for b in body:
+            for s_ in succs[b]:
+                if s_ in body:
+                    continue
+                tb = f.blocks[b]["term"]
+                if not (tb["t"] == "switch" and re.fullmatch(r"discr\(call@\d+:.*Iterator>?::next\)", S.val(tb["discr"]))):
+                    bad.append(b)
+        ctx.check(not bad, rule, "row loop at bb%d runs to exhaustion" % h, "", "a row loop of Join::exec can be left other than by exhausting its iterator (bb%s): after the first "
+                  "match the remaining rows of that side are never paired, so one-to-many joins lose rows" % sorted(set(bad))[:3], f.loc(f.blocks[h]["term"].get("sp")), fn=f.name,
+                  key="%s|exhaust|%d" % (rule, nl))
+    ctx.floor(rule, "row loops in Join::exec", nl, 4)
+    # the joined table is anonymous in both arms: a named result would be prefixed again when it is itself an operand of a join
+    tn = [(arm_of(c[0]), c[2][0]) for c in cs if c[1].endswith("Table::new")]
+    ctx.check(len(tn) >= 2 and all(re.fullmatch(r"call@\d+:std::string::String::new", a0) for (arm, a0) in tn), rule, "joined tables are anonymous", str(tn),
+              "Join::exec names a joined table (%s): its already qualified columns are qualified again when the result is an operand of another join, and valid names are rejected"
+              % [(arm, a0[:60]) for (arm, a0) in tn], f.loc(), fn=f.name, key="%s|anonymous" % rule)
     # every Ast variant with sub-expressions is traversed by populate_column_names (and by eval)
     R2 = "AST-COMPLETE"
     ctx.rule(R2, "Ast::populate_column_names visits every sub-expression of every Ast variant (one recursive call per Box<Ast> field, the Column arm inserts the name), so name "
